@@ -161,11 +161,28 @@ where
         {
             let sw = ShapeWriter::with_shx(shp.clone(), shx.clone());
             let tw = builder().build_with_dest(dbf.clone());
-            let mut w = Writer::new(sw, tw);
+            let w = Writer::new(sw, tw);
+            // histories made of accepted pairs only: one in two goes through the consuming bulk call instead
+            let bulk = !shapes.is_empty() && c.calls.iter().all(|x| *x == Call::Ok) && (c.calls.len() + c.geoms.len()) % 2 == 0;
+            let mut w_opt = if bulk {
+                let rows: Vec<dbase::Record> = (0..c.calls.len()).map(|k| row(k, Call::Ok)).collect();
+                let cycled: Vec<&K> = (0..c.calls.len()).map(|k| &shapes[k % shapes.len()]).collect();
+                w.write_shapes_and_records(cycled.iter().copied().zip(rows.iter())).map_err(|e| Fail::new("good-call-rejected", format!("write_shapes_and_records with {} pairs: {}", rows.len(), err_str(&e))))?;
+                for k in 0..c.calls.len() {
+                    accepted.push((k, expected_after_read(&shapes[k % shapes.len()].view())));
+                }
+                None
+            } else {
+                Some(w)
+            };
             for (k, call) in c.calls.iter().enumerate() {
+                let w = match w_opt.as_mut() {
+                    Some(w) => w,
+                    None => break,
+                };
                 let r = row(k, *call);
                 let (ty, res) = if *call == Call::Mismatch {
-                    (c.other, dispatch(c.other, WriteOther(&mut w, &c.other_geom, &r)))
+                    (c.other, dispatch(c.other, WriteOther(w, &c.other_geom, &r)))
                 } else {
                     let s = &shapes[gi % shapes.len().max(1)];
                     gi += 1;
